@@ -251,9 +251,29 @@ pub fn check(case: &Case) -> Verdict {
         }
         _ => false,
     };
-    if engine_lookbehind_shape {
+    // Second crack in the trusted base: the engine may miss a match depending
+    // on the offset its search starts at (see mat::engine_inconsistent_on_line).
+    let engine_offset_shape = match &m {
+        AnyM::Re(rm) => lines.iter().any(|l| {
+            let c = model::content(input, l, term == Term::Crlf);
+            crate::mat::engine_inconsistent_on_line(rm, input, l.start, l.start + c.len())
+        }),
+        _ => false,
+    };
+    // the general law (mat::offsets_inconsistent), evaluated only when something disagrees
+    let engine_law_broken = || match &m {
+        AnyM::Re(rm) => crate::mat::engine_probe(rm, None, input, term.byte(), term == Term::Crlf).0,
+        _ => false,
+    };
+    if engine_lookbehind_shape || engine_offset_shape {
         // fall through to the strategy comparison
     } else if let Err(e) = model::compare(&exp, body) {
+        if engine_law_broken() {
+            return Verdict::Fail(
+                Fail::new(format!("slice result differs from the LineModel on an input where the regex engine contradicts itself: {e}\n{}", ctx("slice", &reference)))
+                    .fact(crate::mat::ENGINE_FACT),
+            );
+        }
         return Verdict::Fail(
             Fail::new(format!("slice result differs from the LineModel: {e}\n expected: {}\n{}", sea::show_events(&tail(&exp.events)), ctx("slice", &reference)))
                 .fact("model"),
@@ -284,6 +304,11 @@ pub fn check(case: &Case) -> Verdict {
             let label = format!("{}{}", strat.label(), if cfg.multi_line { "+multi_line" } else { "" });
             if out.events != reference.events || out.result != reference.result {
                 let mut f = Fail::new(format!("results depend on the strategy ({label} vs slice)\n{}", ctx(&label, &out)));
+                if engine_offset_shape || engine_law_broken() {
+                    // where a buffer begins decides at which offsets the engine's
+                    // searches start (known finding)
+                    f = f.fact("regex-engine-inconsistent-across-start-offsets");
+                }
                 if engine_lookbehind_shape {
                     // where a buffer begins changes what the engine's
                     // look-behind sees before such a line (known finding)
@@ -353,6 +378,7 @@ pub fn check(case: &Case) -> Verdict {
     info.class_if(lines.iter().any(|l| l.end - l.start > 200), "line_longer_than_any_small_capacity");
     info.class_if(case.cli, "cli_run");
     info.class_if(engine_lookbehind_shape, "model_cross_check_skipped_known_engine_lookbehind");
+    info.class_if(engine_offset_shape, "model_cross_check_skipped_known_engine_offset_inconsistency");
     let _ = variants;
     Verdict::Pass(info)
 }
